@@ -445,3 +445,19 @@ func roundRobin(lists [][]*ref.Pkt) []int {
 		}
 	}
 }
+
+// BigPayloadStream: PES units larger than the pooled buffer's initial capacity (1024) followed
+// by small ones, on two PIDs, so that buffer growth and stale lengths are exercised.
+func BigPayloadStream(seed int64) []byte {
+	cc := []uint8{0, 8}
+	var lists [][]*ref.Pkt
+	var a, b []*ref.Pkt
+	for i, n := range []int{1500, 40, 2300, 7} {
+		a = append(a, Packetize(PESUnit(0x120, 0xe0, pesPayload(60+i, n, seed), uint64(i), false), nil, &cc[0], false)...)
+	}
+	for i, n := range []int{30, 1100, 5} {
+		b = append(b, Packetize(PESUnit(0x121, 0xc1, pesPayload(70+i, n, seed), uint64(i), true), nil, &cc[1], false)...)
+	}
+	lists = append(lists, a, b)
+	return BuildStream("big", lists, roundRobin(lists), nil).Bytes
+}
